@@ -62,7 +62,10 @@ def strategy(ctx):
             lo, hi = gen.int_range(w, signed)
             stores.append([idx, draw(gen.ints_for_range(lo, hi)),
                            draw(st.sampled_from(['cffi', 'cffi', 'cffi', 'c']))])
-        return {'members': members, 'prefill': prefill, 'stores': stores}
+        # cdef(..., packed=True) against __attribute__((packed)): bitfields may then start in the middle
+        # of what would otherwise be padding
+        return {'members': members, 'prefill': prefill, 'stores': stores,
+                'packed': draw(st.integers(0, 3)) == 0}
     # one gcc invocation per Hypothesis case: process creation is the scarce resource here
     return st.lists(case(), min_size=1, max_size=BATCH[ctx.tier])
 
@@ -80,8 +83,10 @@ def _decl(members, k=''):
     return 'struct s%s { %s };' % (k, ' '.join(lines)), names
 
 
-def _c_source(decl, names, members, k):
+def _c_source(decl, names, members, k, packed=False):
     bf = [m for m in members if m[0] == 'bf']
+    if packed:
+        decl = decl[:-1] + ' __attribute__((packed));'
     out = [decl, 'int size_s%s(void) { return (int)sizeof(struct s%s); }' % (k, k)]
     for i, n in enumerate(names):
         signed = not (bf[i][1].startswith('unsigned') or bf[i][1] == '_Bool')
@@ -93,7 +98,8 @@ def _c_source(decl, names, members, k):
 
 def prop(batch, ctx):
     import os
-    src = ''.join(_c_source(_decl(c['members'], k)[0], _decl(c['members'], k)[1], c['members'], k)
+    src = ''.join(_c_source(_decl(c['members'], k)[0], _decl(c['members'], k)[1], c['members'], k,
+                            c.get('packed', False))
                   for k, c in enumerate(batch))
     so = cc.compile_shared(src, ctx.tmp)
     lib = ctypes.CDLL(so)
@@ -119,7 +125,17 @@ def _one(case, k, lib, ctx):
     decl, names = _decl(members, k)
     bf = [m for m in members if m[0] == 'bf']
     ffi = cffi.FFI()
-    ffi.cdef(decl)
+    if case.get('packed'):
+        ffi.cdef(decl, packed=True)
+        try:
+            size = ffi.sizeof('struct s%d' % k)
+        except NotImplementedError:
+            # cffi declines some packed bitfield layouts outright (not a wrong answer)
+            ctx.event('packed: layout declined by cffi (NotImplementedError)')
+            return
+        ctx.event('packed struct')
+    else:
+        ffi.cdef(decl)
     size = ffi.sizeof('struct s%d' % k)
     if 1:
         if getattr(lib, 'size_s%d' % k)() != size:
